@@ -1,6 +1,7 @@
 package dkg_proposal_fsm
 
 import (
+	"bytes"
 	"errors"
 	"fmt"
 	"reflect"
@@ -407,6 +408,17 @@ func (m *DKGProposalFSM) actionMasterKeyConfirmationReceived(inEvent fsm.Event, 
 
 	if dkgProposalParticipant.Status != internal.MasterKeyAwaitConfirmation {
 		err = fmt.Errorf("cannot confirm response with {Status} = {\"%s\"}", dkgProposalParticipant.Status)
+		return
+	}
+
+	// every participant must announce the same public polynomial: the one retained here is what
+	// partial signatures are later verified against
+	if prev := m.payload.DKGProposalPayload.PubPolyBz; len(prev) > 0 && !bytes.Equal(prev, request.PubPolyBz) {
+		dkgProposalParticipant.Status = internal.MasterKeyConfirmationError
+		dkgProposalParticipant.Error = requests.NewFSMError(errors.New("public polynomial is mismatched"))
+		dkgProposalParticipant.UpdatedAt = request.CreatedAt
+		m.payload.DKGProposalPayload.UpdatedAt = request.CreatedAt
+		m.payload.DKGQuorumUpdate(request.ParticipantId, dkgProposalParticipant)
 		return
 	}
 
